@@ -178,7 +178,7 @@ Record Frame (inrep : bool) (s : stmt) (st st' : lstate) : Prop := mkFrame {
 }.
 
 Lemma frame_put inrep s st c sz :
-  match s with Label _ | LocalLabel _ | Assign _ _ | Repeat _ _ | Include _ _ => False | _ => True end ->
+  match s with Label _ | LocalLabel _ | Assign _ _ | Repeat _ _ | Include _ _ _ => False | _ => True end ->
   Frame inrep s st (fst (put st c s sz)).
 Proof.
   intros Hs. constructor; simpl.
@@ -281,7 +281,7 @@ Qed.
 
 Lemma frame_stmt s : stmt_frame s.
 Proof.
-  induction s as [ce body IH | fid body IH | s Hs] using stmt_ind2; intros inrep st st' d H.
+  induction s as [ce body IH | own fid body IH | s Hs] using stmt_ind2; intros inrep st st' d H.
   - rewrite lay_stmt_repeat in H. xinv H. destruct (frame_iter _ IH _ _ _ _ H) as [A1 [A2 [A3 [A4 A5]]]].
     constructor; auto; intros _ x Hx; simpl in Hx; first [discriminate | destruct Hx].
   - destruct inrep; [discriminate|]. rewrite lay_stmt_include in H. xinv H. destruct a as [s1 d1]. simpl in H. inversion H; subst.
@@ -312,10 +312,10 @@ Proof.
   - apply nu_bind; [apply H|]. intros. apply nu_bind; [apply nu_lift|]. intros. destruct (_ <? 0); exact I.
 Qed.
 
-Lemma sup_go_cut D fid body :
+Lemma sup_go_cut D fid b body :
   (fix go (l : list stmt) : bool :=
-     match l with [] => true | End :: _ => true | x :: r => sup_stmt D fid false true x && go r end) body
-  = forallb (sup_stmt D fid false true) (cut_end body).
+     match l with [] => true | End :: _ => true | x :: r => sup_stmt D fid false b x && go r end) body
+  = forallb (sup_stmt D fid false b) (cut_end body).
 Proof. induction body as [|x r IH]; [reflexivity|]. destruct x; simpl; rewrite ?IH; reflexivity. Qed.
 
 Section Lay.
@@ -399,7 +399,7 @@ Qed.
 
 Lemma nu_lay_stmt s : stmt_nu s.
 Proof.
-  induction s as [ce body IH | fid body IH | s Hs] using stmt_ind2; intros inrep st Hsup.
+  induction s as [ce body IH | own fid body IH | s Hs] using stmt_ind2; intros inrep st Hsup.
   - rewrite lay_stmt_repeat. cbn [sup_stmt] in Hsup. apply andb_true_iff in Hsup. destruct Hsup as [Hc Hb].
     apply nu_bind; [apply nu_lev; exact Hc|]. intros n. apply nu_bind; [apply nu_lift|]. intros n'.
     apply nu_iter; [exact IH|exact Hb].
@@ -437,7 +437,7 @@ Proof.
   intros H. apply andb_true_iff in H. destruct H as [H H3]. apply andb_true_iff in H. destruct H as [H1 H2].
   rewrite H1. cbn [negb]. destruct (negb (nodup_str (map fst X))); [exact I|].
   apply nug_bind.
-  { unfold find_base. destruct (first_base q) as [e|]; [|exact I]. apply andb_true_iff in H2. destruct H2 as [B1 B2].
+  { unfold find_base. destruct (first_base 0 q) as [[f0 e]|]; [|exact I]. apply andb_true_iff in H2. destruct H2 as [B1 B2].
     apply nu_bind; [apply nu_lt_ok_nodot; assumption|intros; apply nu_lift]. }
   intros base _. apply nug_bind.
   { apply nu_lay_program. exact H3. }
